@@ -2692,46 +2692,31 @@ template< size_t L> inline
    FixedString< L>& FixedString< L>::replaceImpl( size_t pos1, size_t count1,
       const char* str, size_t pos2, size_t count2) noexcept
 {
-   if (pos1 >= mLength)
+   if (pos1 > mLength)
       return *this;
-   size_t  copy_len = count2;
-   if (pos1 + count1 >= mLength)
-   {
-      // replace from pos until the end of the string
-      if (pos1 + copy_len > L)
-         copy_len = L - pos1;
+
+   // the part to replace ends at the end of the string at the latest
+   if (count1 > mLength - pos1)
+      count1 = mLength - pos1;
+
+   // number of characters of the replacement that fit into the string
+   const size_t  copy_len = std::min( count2, L - pos1);
+
+   // number of characters after the replaced part that still fit behind the
+   // replacement, surplus characters are dropped
+   const size_t  keep = std::min( mLength - pos1 - count1, L - pos1 - copy_len);
+
+   // goodbyexfarewell
+   // replace x by ' and ':  replace( 7, 1, " and ");
+   // make space:  goodbyex....farewell
+   // copy:        goodbye and farewell
+   if ((keep > 0) && (copy_len != count1))
+      std::memmove( &mString[ pos1 + copy_len], &mString[ pos1 + count1], keep);
+   if (copy_len > 0)
       std::memcpy( &mString[ pos1], &str[ pos2], copy_len);
-      mLength = pos1 + copy_len;
-      mString[ mLength] = '\0';
-   } else if (count1 == copy_len)
-   {
-      std::memcpy( &mString[ pos1], &str[ pos2], copy_len);
-   } else if (count1 < copy_len)
-   {
-      // goodbyexfarewell
-      // replace x by ' and ':  replace( 7, 1, " and ");
-      // str.length() == 5
-      // make space:  goodbyex....farewell
-      // copy:        goodbye and farewell
-      std::memmove( &mString[ pos1 + copy_len - count1 + 1],
-         &mString[ pos1 + count1],
-         mLength - pos1 - count1);
-      std::memcpy( &mString[ pos1], &str[ pos2], copy_len);
-      mLength = mLength - count1 + copy_len;
-      mString[ mLength] = '\0';
-   } else // count1 > copy_len
-   {
-      // goodbyexxxxxxxxfarewell
-      // replace xxxxxxxx by ' and ':  replace( 7, 8, " and ");
-      // str.length() == 5
-      // adjust end of string:  goodbyexxxxxfarewell
-      // copy:                  goodbye and farewell
-      std::memmove( &mString[ pos1 + copy_len], &mString[ pos1 + count1],
-         mLength - pos1 - count1);
-      std::memcpy( &mString[ pos1], &str[ pos2], copy_len);
-      mLength -= (count1 - copy_len);
-      mString[ mLength] = '\0';
-   } // end if
+
+   mLength = pos1 + copy_len + keep;
+   mString[ mLength] = '\0';
    return *this;
 } // FixedString< L>::replaceImpl
 
